@@ -499,6 +499,12 @@ func (r *Resolvable) ResolveDeferBatch(rootData *Object, out io.Writer, outstand
 			shouldSkipIncremental = true
 		} else {
 			incrementalItems = scratch.Bytes()
+			// No item was rendered although the group reported errors (its anchor was
+			// nulled by the fetch or by null propagation): the errors belong on the
+			// completed entry instead of being dropped with an empty incremental list.
+			if len(incrementalItems) == 0 && r.hasErrors() {
+				shouldSkipIncremental = true
+			}
 		}
 	}
 
